@@ -525,6 +525,11 @@ func C08(r *Run) {
 		map[string]any{"d": map[string]any{"$decode": "yaml", "$value": "a: &x\n  b: *x\n"}},
 		map[string]any{"d": map[string]any{"$decode": "json", "$value": `{"$merge": "d"}`}},
 		map[string]any{"d": map[string]any{"$decode": "json", "$value": `{"k": "$required"}`}})
+	// the shortest strings that still look like a directive: prefix and suffix of a wrapper may overlap
+	for _, t := range []string{`$"`, `$""`, `$`, `$$`, `$"{`, `$"}`, `$"{}"`, `$"{"`, "$env:", "$merge:", "$replace:", "$repeat:", `$"{$env:}"`, `$"{$repeat:}"`} {
+		edge = append(edge, map[string]any{"v": t}, []any{t}, map[string]any{t: 1},
+			map[string]any{"l": []any{map[string]any{"$repeat": 2, "v": t}}}, map[string]any{"a": t, "b": `$"{a}"`})
+	}
 	for i, doc := range edge {
 		doc, i := doc, i
 		submit(func() [][]byte {
